@@ -78,9 +78,10 @@ def rand_operand(rnd, kind):
         n = int(kind[1:])
         return rnd.choice([0, 1, -1, (1 << (8 * n - 1)) - 1, -(1 << (8 * n - 1))])
     if kind == "uleb":
-        return rnd.choice([0, 1, 127, 128, 300, 16384, (1 << 32) + 1])
+        return rnd.choice([0, 1, 127, 128, 300, 16384, (1 << 31), (1 << 32) - 1, (1 << 32) + 1, (1 << 63), (1 << 64) - 1])
     if kind == "sleb":
-        return rnd.choice([0, 1, -1, 63, 64, -64, -65, 1000, -1000, -(1 << 31)])
+        return rnd.choice([0, 1, -1, 63, 64, -64, -65, 1000, -1000, -(1 << 31), (1 << 31) - 1, 1 << 31, -(1 << 31) - 1, 1 << 40,
+                           -5000000000, (1 << 63) - 1, -(1 << 63)])
     if kind in ("block", "cblock"):
         return bytes(rnd.randint(0, 255) for _ in range(rnd.choice([0, 1, 4, 8] if kind == "block" else [1, 4, 8])))
     raise ValueError(kind)
